@@ -61,6 +61,7 @@ typedef struct {
 	int cause_baddata, cause_status, cause_conn, cause_connect_pending, cause_connect_timeout;
 	time_t connect_started; int connecting;
 	long step;                      /* events applied so far */
+	int id_reuse_expected;          /* long runs through one slot (part wrap): the 8-bit generation counter wraps by design */
 	int conf_pending;               /* authentic pushed configurations that reached the client and are not yet accounted for by a returned notice */
 	long conf_arrived;              /* authentic configuration payloads that reached the client so far */
 	int violated;
@@ -101,7 +102,13 @@ static void h_after_send(sn_conn *c) {
 				unsigned char h[RH_MAX_IMPRINT];
 				size_t hl = ref_fake_imprint(RH_SHA256, W.req[i].seed, h);
 				if (!W.req[i].is_conf && !W.req[i].sent_complete && !W.req[i].returned && r.has_hash && r.hash_len == hl && memcmp(r.hash, h, hl) == 0) {
+					int q;
 					W.req[i].sent_complete = 1; W.req[i].id = r.req_id; W.req[i].sent_time = sn_now;
+					/* within fewer than 255 generations of a slot no two requests may bear the same identifier: a reply to the
+					 * earlier one (late, repeated) would be taken for the later one's */
+					if (!W.id_reuse_expected) for (q = 0; q < W.nreq; q++) if (q != i && W.req[q].sent_complete && !W.req[q].is_conf && W.req[q].id == r.req_id) {
+						HF("request-id-reused", "request #%d was sent with identifier %llx, which request #%d of this short history already bore", i, (unsigned long long)r.req_id, q); W.violated = 1; break;
+					}
 					break;
 				}
 			}
@@ -600,6 +607,7 @@ static void part_wrap(void) {
 		if (!vf_case_begin("wrap:kind%d:pos%d", kind, pos)) continue;
 		snprintf(g_hist, sizeof g_hist, "wrap%d@%d", kind, pos);
 		world_open(&cfg);
+		W.id_reuse_expected = 1;
 		old = calloc((size_t)total, sizeof(vbuf));
 		old_id = calloc((size_t)total, sizeof *old_id);
 		old_seed = calloc((size_t)total, sizeof *old_seed);
